@@ -400,6 +400,7 @@ func checkC10(c *Ctx) {
 	c10HandlerErrorContained(c, "R-handler-error-contained")
 	c10MetaKept(c, "R-meta-kept")
 	c10FlattenKeepsAll(c)
+	c10OneResponder(c, "R-one-responder")
 }
 
 func c10Client(c *Ctx) {
@@ -864,5 +865,107 @@ func c10FlattenKeepsAll(c *Ctx) {
 	}
 	if n == 0 {
 		c.R.Break("R-meta-kept: no flattening marshaller found (a MarshalJSON that ranges over a map member and copies it into its output)")
+	}
+}
+
+// c10OneResponder (R-one-responder): once a POST is being answered as an event stream (the branch taken when the
+// responder is the streaming one), everything that is written to that response — notifications, the result, an error —
+// goes through that streaming responder. An answer written by another responder (a plain JSON body) lands as a bare
+// line inside the open event stream, which an SSE reader ignores: the call never gets its answer.
+func c10OneResponder(c *Ctx, rule string) {
+	n := 0
+	for _, fn := range c.P.LibFns {
+		if clientSide(c, fn) || !hasWriterParam(fn) {
+			continue
+		}
+		// the streaming branch: blocks on the ok edge of a comma-ok assertion to a streaming responder type
+		var tas []*ssa.TypeAssert
+		ir.EachInstr(fn, func(_ *ssa.BasicBlock, _ int, in ssa.Instruction) {
+			if ta, ok := in.(*ssa.TypeAssert); ok && ta.CommaOk && c10StreamingType(c, ta.AssertedType) {
+				tas = append(tas, ta)
+			}
+		})
+		for _, ta := range tas {
+			var val, okv ssa.Value
+			for _, r := range *ta.Referrers() {
+				if ex, ok := r.(*ssa.Extract); ok {
+					if ex.Index == 0 {
+						val = ex
+					} else {
+						okv = ex
+					}
+				}
+			}
+			if val == nil || okv == nil {
+				continue
+			}
+			derivedFrom := func(v ssa.Value) bool {
+				for i := 0; i < 4 && v != nil; i++ {
+					if v == val {
+						return true
+					}
+					switch x := v.(type) {
+					case *ssa.MakeInterface:
+						v = x.X
+					case *ssa.ChangeInterface:
+						v = x.X
+					case *ssa.ChangeType:
+						v = x.X
+					default:
+						return false
+					}
+				}
+				return false
+			}
+			cnt := 0
+			ir.EachInstr(fn, func(_ *ssa.BasicBlock, _ int, in ssa.Instruction) {
+				call, ok := in.(*ssa.Call)
+				if !ok || !passesWriter(call) {
+					return
+				}
+				inBranch := false
+				for _, g := range flow.Guards(fn, call.Block()) {
+					if g.If.Cond == okv && g.Branch {
+						inBranch = true
+					}
+				}
+				if !inBranch {
+					return
+				}
+				// does it answer? the responder itself, or a helper that reaches one
+				answers, direct := false, isRespondCall(c, call)
+				if direct {
+					answers = true
+				} else if sc := ir.StaticCallee(call); sc != nil && c.P.IsLib(sc) && hasWriterParam(sc) {
+					for f := range c.ReachSync(sc) {
+						ir.EachInstr(f, func(_ *ssa.BasicBlock, _ int, in2 ssa.Instruction) {
+							if ic, ok := in2.(*ssa.Call); ok && isRespondCall(c, ic) {
+								answers = true
+							}
+						})
+					}
+				}
+				if !answers {
+					return
+				}
+				n++
+				cnt++
+				through := false
+				if direct && call.Call.IsInvoke() {
+					through = derivedFrom(call.Call.Value)
+				}
+				for _, a := range call.Call.Args {
+					if derivedFrom(a) {
+						through = true
+					}
+				}
+				c.R.Check(through, rule, sprintf("answer #%d on the streaming branch of %s", cnt, fname(fn)), c.Pos(call.Pos()),
+					"written through the streaming responder of this response",
+					sprintf("on the branch where %s answers as an event stream, an answer is written without the streaming responder (another responder is used): after the first event has gone out the body is an open event stream, and a plain JSON line in it is ignored by the client — the call gets no answer", fname(fn)))
+			})
+		}
+	}
+	if n == 0 {
+		c.R.Hold(rule, "no function answers on a streaming branch", "", "")
 	}
 }
